@@ -30,7 +30,8 @@ Proof.
   - unfold sync_body in H. destruct (st_freq (e_strategy e)) as [freq|] eqn:Ef; [|discriminate].
     destruct (sync_gate sn freq) as [d|] eqn:Eg.
     + inversion H; subst. eapply ShapeIdle; reflexivity.
-    + apply bind_ok in H. destruct H as [cx [Hc H]]. apply bind_ok in H. destruct H as [so [Hs H]].
+    + destruct (f_list (sn_faults sn)); [discriminate|].
+      apply bind_ok in H. destruct H as [cx [Hc H]]. apply bind_ok in H. destruct H as [so [Hs H]].
       eapply ShapeFull; eauto.
   - inversion H; subst. eapply ShapeIdle; reflexivity.
 Qed.
@@ -43,7 +44,8 @@ Theorem ers_sync_full : forall sn ch pl e freq cx,
 Proof.
   intros sn ch pl e freq cx H He Hd Hf Hg Hc. unfold ers_sync in H.
   destruct (N.eqb (r_owner (sn_rs sn)) no_name); [discriminate|].
-  rewrite He, Hd in H. cbn [negb] in H. unfold sync_body in H. rewrite Hf, Hg, Hc in H. cbn [bind] in H.
+  rewrite He, Hd in H. cbn [negb] in H. unfold sync_body in H. rewrite Hf, Hg in H.
+  destruct (f_list (sn_faults sn)); [discriminate|]. rewrite Hc in H. cbn [bind] in H.
   apply bind_ok in H. destruct H as [so [Hs H]]. eauto.
 Qed.
 
@@ -59,7 +61,8 @@ Proof.
   destruct (st_freq (e_strategy e)) as [freq|] eqn:Ef; [|discriminate].
   destruct (sync_gate sn freq) as [d|] eqn:Eg.
   - injection H as <-. left; reflexivity.
-  - apply bind_ok in H. destruct H as [cx [Hc H]]. apply bind_ok in H. destruct H as [so [Hs H]].
+  - destruct (f_list (sn_faults sn)); [discriminate|].
+    apply bind_ok in H. destruct H as [cx [Hc H]]. apply bind_ok in H. destruct H as [so [Hs H]].
     right. exists freq, cx, so. auto.
 Qed.
 
